@@ -203,16 +203,12 @@ Proof.
   cbn [repeat]. f_equal; [lia|]. apply IH. exact Hm.
 Qed.
 
-(* the C24 repair is present in the tree (kept folded so that the proof scripts do not
-   depend on the value of the constant) *)
-Inductive repaired : Prop := repaired_intro (H : C24_REPAIR = 1).
-
-Lemma decode_field_ok : forall tid m v5 f, repaired ->
+Lemma decode_field_ok : forall tid m v5 f,
   wf_bytes m -> blen m <= 65531 -> (v5 = false -> blen m mod 4 = 0) ->
   0 <= tid < 65536 -> tid <> T_ENCRYPTED ->
   decode_field tid m v5 = Ok f -> field_ok v5 f.
 Proof.
-  intros tid m v5 f Hrep Hwf Hlen Hmod Htid Hne H. unfold decode_field in H.
+  intros tid m v5 f Hwf Hlen Hmod Htid Hne H. unfold decode_field in H.
   assert (data_ok v5 m) as Hd by (repeat split; assumption).
   destruct (tid =? T_UID) eqn:E1. { inversion H; subst. exact Hd. }
   destruct (tid =? T_COOKIE) eqn:E2. { inversion H; subst. exact Hd. }
@@ -227,7 +223,6 @@ Proof.
     apply bind_ok_inv in H. destruct H as ([plen off] & Hr & H).
     unfold refreq_decode in Hr. destruct (blen m >? 65535); [discriminate|].
     destruct (slice m 0 2) as [ob|] eqn:Es; [|discriminate]. inversion Hr; subst; clear Hr.
-    destruct Hrep as [Hrep]. rewrite Hrep in H. clear Hrep. cbn [Z.eqb orb] in H.
     destruct (blen m mod 4 =? 0) eqn:Em; inversion H; subst. cbn [field_ok].
     pose proof (wf_slice _ _ _ _ Hwf Es) as Hwo. apply slice_some in Es. destruct Es as (_ & _ & ? & _ & Hbl).
     pose proof (be_bound ob Hwo) as Hb. rewrite Hbl in Hb. change (256 ^ (2 - 0)) with 65536 in Hb.
@@ -242,12 +237,12 @@ Definition inv (v5 : bool) (st : lstate) : Prop :=
   authenticated (l_ef st) = [] /\ encrypted (l_ef st) = [] /\ l_cookie st = None /\
   (l_valid st = true -> Forall (field_ok v5) (untrusted (l_ef st))).
 
-Lemma noks_loop : forall dec data hs v5 buf, repaired -> wf_bytes buf ->
+Lemma noks_loop : forall dec data hs v5 buf, wf_bytes buf ->
   forall fuel offset st st', inv v5 st -> l_size st = offset -> 0 <= offset <= blen buf ->
   ef_loop fuel dec NoKeys data hs v5 buf offset st = Ok st' ->
   inv v5 st' /\ 0 <= l_size st' <= blen buf /\ blen (bdrop (l_size st') buf) <= ef_cutoff v5.
 Proof.
-  intros dec data hs v5 buf Hrep Hwf. induction fuel as [|fuel IH]; intros offset st st' Hi Hs Ho H.
+  intros dec data hs v5 buf Hwf. induction fuel as [|fuel IH]; intros offset st st' Hi Hs Ho H.
   - discriminate.
   - cbn [ef_loop] in H. unfold EF_V4_UNENCRYPTED_MINIMUM_SIZE in H.
     destruct (stream_next buf (ef_cutoff v5) 4 v5 offset) as [[e off']|] eqn:E.
@@ -497,11 +492,11 @@ Definition body_ok (v5 : bool) (d : efdata) (m : option mac) (tail : bytes) : Pr
   authenticated d = [] /\ encrypted d = [] /\ Forall (field_ok v5) (untrusted d) /\
   mac_wire m = tail /\ blen tail <= ef_cutoff v5 /\ wf_bytes tail.
 
-Lemma with_fields_accept : forall dec data h v5 p c, repaired -> wf_bytes data -> 48 <= blen data ->
+Lemma with_fields_accept : forall dec data h v5 p c, wf_bytes data -> 48 <= blen data ->
   with_fields dec NoKeys data h 48 v5 = Ok (Accept p c) ->
   c = None /\ p_header p = h /\ exists tail, body_ok v5 (p_ef p) (p_mac p) tail.
 Proof.
-  intros dec data h v5 p c Hrep Hwf Hlen H. unfold with_fields in H.
+  intros dec data h v5 p c Hwf Hlen H. unfold with_fields in H.
   inv_bind H. destruct a as [[[d remaining] ck] valid]. inv_bind H.
   destruct valid; [|discriminate]. inversion H; subst a c; clear H.
   unfold efdata_deserialize in E. rewrite range_ok in E by lia. cbn [res_bind] in E.
@@ -511,7 +506,7 @@ Proof.
   assert (wf_bytes buf) as Hwb by (apply wf_btake, wf_bdrop; assumption).
   inv_bind E. inv_bind E. inversion E as [[Hd Hr0 Hck Hv]]; subst d remaining ck; clear E.
   pose proof (blen_nonneg buf) as Hbn.
-  eapply (noks_loop dec data 48 v5 buf Hrep Hwb) in E1;
+  eapply (noks_loop dec data 48 v5 buf Hwb) in E1;
     [|repeat split; try reflexivity; intros; constructor|reflexivity|lia].
   destruct E1 as ((Ha & He & Hc & Hf) & Hsz & Hcut).
   apply range_inv in E2. destruct E2 as (_ & _ & _ & Hr & Hrl).
@@ -576,11 +571,11 @@ Proof.
   - injection Hmac as Hq. destruct (p_header p); cbn [res_bind w_out]; rewrite <- Hq; reflexivity.
 Qed.
 
-Theorem reencode_ok : repaired -> forall dec data p c, wf_bytes data ->
+Theorem reencode_ok : forall dec data p c, wf_bytes data ->
   deserialize dec NoKeys data = Ok (Accept p c) ->
   c = None /\ exists b1, forall enc cap, blen b1 <= cap -> serialize enc None cap None p = Ok b1.
 Proof.
-  intros Hrep dec data p c Hwf H. unfold deserialize in H.
+  intros dec data p c Hwf H. unfold deserialize in H.
   destruct data as [|x data']; [discriminate|]. remember (x :: data') as data eqn:Ed. clear Ed.
   inv_bind H. rename a into d0. rename E into Hd0.
   destruct (_ =? 3) eqn:V3.
